@@ -22,7 +22,9 @@ for sid in ids:
     res = {}
     try:
         env_target = ['--target-dir', '/tmp/sv/target-' + sid]
-        shutil.copy(os.path.join(d, 'seeded_demo.rs'), os.path.join(wt, 'tests', 'seeded_demo.rs'))
+        # sub-agent demos of rounds 2+ were written as tests/seeded_demo_<a|b>.rs (some assert on the crate name)
+        tname = 'seeded_demo_' + sid[-1] if sid[-1] in 'ab' and '-' in sid else 'seeded_demo'
+        shutil.copy(os.path.join(d, 'seeded_demo.rs'), os.path.join(wt, 'tests', tname + '.rs'))
         if os.path.isdir(os.path.join(d, 'seeded_demo_cases')):
             shutil.copytree(os.path.join(d, 'seeded_demo_cases'), os.path.join(wt, 'tests', 'seeded_demo_cases'))
         meta0 = json.load(open(os.path.join(d, 'meta.json')))
@@ -31,7 +33,7 @@ for sid in ids:
             fl = meta0['demo_features']
             fl = [x for x in fl if not x.startswith('--')] if isinstance(fl, list) else [fl]
             feats = ['--features', ','.join(fl)] if fl else []
-        demo = ['cargo', 'test', '--offline', '--test', 'seeded_demo'] + feats + env_target
+        demo = ['cargo', 'test', '--offline', '--test', tname] + feats + env_target
         rc0, out0 = run(demo, wt)
         res['demo_without_change'] = 'pass' if rc0 == 0 else 'FAIL'
         rc, out = run(['git', 'apply', os.path.join(d, 'patch.diff')], wt)
@@ -41,7 +43,7 @@ for sid in ids:
             rc1, out1 = run(demo, wt)
             res['demo_with_change'] = 'fails' if rc1 != 0 else 'PASSES'
             res['demo_with_change_tail'] = out1.strip().split('\n')[-3:]
-            os.rename(os.path.join(wt, 'tests', 'seeded_demo.rs'), os.path.join(wt, 'seeded_demo.rs.aside'))
+            os.rename(os.path.join(wt, 'tests', tname + '.rs'), os.path.join(wt, 'seeded_demo.rs.aside'))
             rc2, out2 = run(['cargo', 'test', '--workspace', '--no-fail-fast', '--offline'] + env_target, wt)
             passed = sum(int(l.split('ok. ')[1].split(' passed')[0]) for l in out2.split('\n') if l.startswith('test result: ok.'))
             res['suite_with_change'] = 'pass (%d tests)' % passed if rc2 == 0 else 'FAIL'
